@@ -40,10 +40,20 @@
 #include "c2mir/c2mir.h"
 #include <sys/mman.h>
 
+#ifdef H_ASAN
+/* AddressSanitizer flavour: no libc interposition (ASan owns malloc); every block of the checking
+   allocator is its own ASan allocation and is returned at once, so that any later read or write of it
+   by the library is reported by ASan as heap-use-after-free */
+#define __libc_malloc malloc
+#define __libc_calloc calloc
+#define __libc_realloc realloc
+#define __libc_free free
+#else
 extern void *__libc_malloc (size_t);
 extern void *__libc_calloc (size_t, size_t);
 extern void *__libc_realloc (void *, size_t);
 extern void __libc_free (void *);
+#endif
 extern char __executable_start[];
 extern char etext[];
 
@@ -220,9 +230,20 @@ static void h_quar_pop (void) {
   h_quar_tail = (h_quar_tail + 1) % H_QUAR_N;
 }
 
+/* is p inside a block the library has freed (and that is still parked in the quarantine)? */
+static int h_freed_p (const void *p) {
+  for (unsigned i = h_quar_tail; i != h_quar_head; i = (i + 1) % H_QUAR_N)
+    if ((const uint8_t *) p >= h_quar[i].raw && (const uint8_t *) p < h_quar[i].raw + h_quar[i].total) return 1;
+  return 0;
+}
+
 static void h_blk_release (uint8_t *p, size_t size) {
   uint8_t *raw = p - H_HDR;
   size_t total = H_HDR + size + H_GUARD;
+#ifdef H_ASAN
+  free (raw);
+  return;
+#endif
   memset (raw, 0xDD, total);
   while (h_quar_bytes + total > H_QUAR_MAX || (h_quar_head + 1) % H_QUAR_N == h_quar_tail) {
     if (h_quar_head == h_quar_tail) break;
@@ -288,6 +309,7 @@ static int h_in_text (void *ra) { return (char *) ra >= __executable_start && (c
 
 enum { H_RAW_MALLOC = 0, H_RAW_CALLOC = 1, H_RAW_REALLOC = 2, H_RAW_FREE = 3 };
 
+#ifndef H_ASAN
 void *malloc (size_t size) {
   void *ra = __builtin_return_address (0);
   void *p = __libc_malloc (size);
@@ -332,6 +354,8 @@ void *realloc (void *p, size_t size) {
   if (h_in_text (ra)) h_ev ("R", 4, H_RAW_REALLOC, (uintptr_t) q, size, (uintptr_t) ra);
   return q;
 }
+
+#endif /* !H_ASAN */
 
 /* ------------------------------------------------------------------ checking MIR_code_alloc */
 typedef struct {
@@ -835,6 +859,63 @@ static void h_step_lrefcheck (int values_p) {
           }
       }
     }
+  H_Q ();
+}
+
+/* parallel-compilation pattern: every module of the current context is moved to a fresh context with
+   MIR_change_module_ctx, then the SOURCE context is finished first; the new context goes on */
+static void h_step_movectx (void) {
+  MIR_context_t nctx;
+  MIR_module_t m, next;
+  h_need_ctx ();
+  if (h_gen_on || h_c2m_on) h_die (3, "movectx with generator/c2mir still attached to the old context");
+  nctx = MIR_init2 (&h_alloc, &h_code_alloc);
+  MIR_set_error_func (nctx, h_error);
+  H_Q ();
+  for (m = DLIST_HEAD (MIR_module_t, *MIR_get_module_list (h_ctx)); m != NULL; m = next) {
+    next = DLIST_NEXT (MIR_module_t, m);
+    MIR_change_module_ctx (h_ctx, m, nctx);
+    H_Q ();
+  }
+  MIR_finish (h_ctx);
+  H_Q ();
+  h_ctx = nctx;
+}
+
+/* every name the modules of the current context carry must not lie in a block the library has freed */
+static void h_name (const char *p, unsigned kind) {
+  if (p != NULL && h_freed_p (p)) h_ev ("D", 2, (uintptr_t) p, 10 + kind, 0, 0);
+}
+
+static void h_vars (VARR (MIR_var_t) * vars, unsigned kind) {
+  if (vars == NULL) return;
+  for (size_t i = 0; i < VARR_LENGTH (MIR_var_t, vars); i++) h_name (VARR_GET (MIR_var_t, vars, i).name, kind);
+}
+
+static void h_step_namecheck (void) {
+  MIR_context_t ctx = h_ctx;
+  h_need_ctx ();
+  for (MIR_module_t m = DLIST_HEAD (MIR_module_t, *MIR_get_module_list (ctx)); m != NULL;
+       m = DLIST_NEXT (MIR_module_t, m)) {
+    h_name (m->name, 0);
+    for (MIR_item_t it = DLIST_HEAD (MIR_item_t, m->items); it != NULL; it = DLIST_NEXT (MIR_item_t, it)) {
+      h_name (MIR_item_name (ctx, it), 1);
+      if (it->item_type == MIR_proto_item) h_vars (it->u.proto->args, 2);
+      if (it->item_type != MIR_func_item) continue;
+      h_vars (it->u.func->vars, 3);
+      h_vars (it->u.func->global_vars, 4);
+      {
+        func_regs_t fr = it->u.func->internal;
+        for (size_t i = 1; fr != NULL && i < VARR_LENGTH (reg_desc_t, fr->reg_descs); i++) {
+          h_name (VARR_GET (reg_desc_t, fr->reg_descs, i).name, 5);
+          h_name (VARR_GET (reg_desc_t, fr->reg_descs, i).hard_reg_name, 6);
+        }
+      }
+      for (MIR_insn_t in = DLIST_HEAD (MIR_insn_t, it->u.func->insns); in != NULL; in = DLIST_NEXT (MIR_insn_t, in))
+        for (size_t i = 0; i < in->nops; i++)
+          if (in->ops[i].mode == MIR_OP_STR) h_name (in->ops[i].u.str.s, 7);
+    }
+  }
   H_Q ();
 }
 
@@ -1417,6 +1498,8 @@ int main (int argc, char **argv) {
       h_step_run (a1 ? a1 : "main", a2 ? atol (a2) : 10);
       h_run_mode = -1;
     } else if (strcmp (st, "gen1") == 0) h_step_gen1 (a1 ? a1 : "main", a2 ? atoi (a2) : 2);
+    else if (strcmp (st, "movectx") == 0) h_step_movectx ();
+    else if (strcmp (st, "namecheck") == 0) h_step_namecheck ();
     else if (strcmp (st, "setif") == 0) h_step_setif (a1 ? a1 : "main", a2 ? a2 : "lazy");
     else if (strcmp (st, "genfinish") == 0) h_step_genfinish ();
     else if (strcmp (st, "finish") == 0) h_step_finish ();
